@@ -21,8 +21,8 @@ RULE = ("histories over the names T and U (initially typedef / typedef-or-object
         "object, object with initializer, enumerator, struct tag, enum tag, member, label, prototype-only parameter, "
         "function definition with that parameter name, for-init object, inner block open/close, enumerator inside a struct "
         "body, K&R parameter, nested-declarator parameter}; after every event and scope exit each name is probed with "
-        "'N * v;', '(N)(v);', 'sizeof(N)', 'N (v);'. Exhaustive for all legal event sequences of length <= 3 (quick) / <= 4 "
-        "(thorough) with block nesting <= 2; random longer histories. Non-trivial: history with >= 1 event besides probes; "
+        "'N * v;', '(N)(v);', 'sizeof(N)', 'N (v);'. Exhaustive for all legal event sequences of length <= 3 (quick; thorough adds one "
+        "seed-selected half of the length-4 sequences) with block nesting <= 2; random longer histories. Non-trivial: history with >= 1 event besides probes; "
         "distinct = distinct program texts.")
 ASSUMPTIONS = ["ref.scope: C99 6.2.1 ordinary-identifier scoping (file / function body incl. parameters / block / for); tags, "
                "members and labels live in other name spaces",
@@ -426,7 +426,7 @@ def gcc_validate(texts):
 
 def plan(tier, seed):
     n = 16
-    specs = [{"name": f"exh-{i}", "mode": "exh", "maxlen": 3 if tier == "quick" else 4, "shard": i, "nshards": n} for i in range(n)]
+    specs = [{"name": f"exh-{i}", "mode": "exh", "maxlen": 3 if tier == "quick" else 4, "shard": i, "nshards": n, "half": seed % 2} for i in range(n)]
     for i in range(6):
         specs.append({"name": f"rand-{i}", "mode": "rand", "n": 500 if tier == "quick" else 20000, "rseed": seed * 101 + i,
                       "ngcc": 12 if tier == "quick" else 80})
@@ -460,6 +460,8 @@ def run_shard(spec):
                 idx += 1
                 if idx % spec["nshards"] != spec["shard"]:
                     continue
+                if L == 4 and (idx // spec["nshards"]) % 2 != spec.get("half", 0):
+                    continue     # length-4 histories: one half per run, selected by the seed (keeps the thorough tier under an hour)
                 for u_kind in ("typedef", "obj"):
                     if L <= 2:
                         # every parameter-list style x parameter name for the short histories
@@ -531,7 +533,7 @@ def summarize(results, tier, seed):
             kf[k] = kf.get(k, 0) + v
     return {"monitors": {"scope_probe_monitor": tot, "known_finding_cases": kf},
             "traces_validated_against_impl": tot["gcc_validated"],
-            "exhaustive_parts": [f"all legal event sequences of length <= {3 if tier == 'quick' else 4} over {len(BLOCK_EVENTS)} event kinds x 2 names x 2 initial states"]}
+            "exhaustive_parts": [f"all legal event sequences of length <= 3{'' if tier == 'quick' else ' (+ half of length 4)'} over {len(BLOCK_EVENTS)} event kinds x 2 names x 2 initial states"]}
 
 
 def replay(rec):
